@@ -513,6 +513,31 @@ func TestCheck(t *testing.T) {
 		}
 	}
 
+	// (3g) two big codes of the same dimensions but different kinds built one after the other (2^24 matrix elements each)
+	if cfg.Mine(4200) {
+		rec.Class("big-codes-of-both-kinds-in-sequence")
+		do(Case{Coder: "vand", D: 1024, P: 16384, Len: 2, G: 4, MissD: []int{5}, KeepPar: []int{0, 255, 16383}, Seed: 400})
+		do(Case{Coder: "cauchy", D: 1024, P: 16384, Len: 2, G: 4, MissD: []int{3, 900}, KeepPar: []int{0, 255}, Seed: 401})
+		do(Case{Coder: "vand", D: 1024, P: 16384, Len: 2, G: 4, MissD: []int{3, 900}, KeepPar: []int{1, 256}, Seed: 402})
+	}
+	// (3h) two missing data shards with parity rows whose exponents share factors with 65535 (3, 5, 17, 257): the reference
+	// decides which combinations are singular
+	{
+		tops := []int{21845, 13107, 43690, 3855, 4369, 255, 257, 771}
+		for ti, top := range tops {
+			for d := 3; d <= 9; d += 3 {
+				for a := 0; a < d; a++ {
+					for b := a + 1; b < d; b++ {
+						if !cfg.Mine(4300 + ti*100 + d*10 + a + b) {
+							continue
+						}
+						rec.Class("two-missing-with-special-parity-rows")
+						do(Case{Coder: "vand", D: d, P: top + 1, Len: 4, G: 1 + (a+b)%3, MissD: []int{a, b}, KeepPar: []int{1, top}, Seed: uint64(top + a*10 + b)})
+					}
+				}
+			}
+		}
+	}
 	// (3f) goroutine counts far beyond the number of work units, up to the largest int
 	for gi, g := range []int{1 << 20, 1<<31 - 1, 1 << 31, 1 << 40, 1 << 59, 1<<63 - 1} {
 		if !cfg.Mine(4100 + gi) {
